@@ -357,3 +357,44 @@ def r6(ctx):
     for r in c11.r3(ctx):
         r.rule = "C19-R6"
         yield r
+
+
+TRUNCATING = r"Iterator::(take_while|skip_while|take|skip|step_by|map_while|scan|nth|last|find|find_map|rev|dedup\w*)$"
+
+
+@M.rule("C19-R7", "the Authorization header's parameter list is read to its end: only empty elements are skipped, nothing stops the scan")
+def r7(ctx):
+    """`Credential=.., ,Signature=..`: an empty list element is skipped, the elements after it still count (last wins needs
+    every occurrence). Two idioms: a `for` loop over split(',') whose only ways out of an iteration are the next iteration,
+    the insert or an error return; or an iterator pipeline on split(',') without a truncating / reordering stage."""
+    b = ctx.fn(FNS[1])
+    sp = [(bi, t) for bi, t in b.calls(r"slice::<impl \[T\]>::split$|str>::split$")]
+    if not sp:
+        raise AnchorMissing("split(',') over the Authorization parameters")
+    ctx.count(len(sp))
+    bad = []
+    for bi, t in b.calls(TRUNCATING):
+        src, stages = pipeline_of(b, t["args"][0])
+        if src and src[0] == "def" and src[1]["kind"] == "call" and re.search(r"slice::<impl \[T\]>::split$|str>::split$", src[1]["term"]["callee"]):
+            bad.append((bi, t))
+    for bi, t in bad:
+        yield VIOL("C19-R7", "from_auth_header/params-truncated:" + t["callee"].split("::")[-1], "`%s` on the parameter list: elements after the first one it rejects (e.g. after an empty element `, ,`) are never looked at, or the order of occurrences changes" % t["callee"].split("::")[-1], where=b.span_of_block(bi))
+    # loop form: no `break`
+    nx = [x for x in b.calls(r"Iterator::next$") if re.search(r"slice::Split<|str::Split<", x[1].get("resolved_full", "")) and not x[1].get("summary")]
+    if len(nx) == 1:
+        st = b.term(nx[0][1]["target"])
+        some = [bb for v, bb in st["targets"] if v == 1] if st["k"] == "switch" else []
+        none = [bb for v, bb in st["targets"] if v == 0] if st["k"] == "switch" else []
+        if st["k"] == "switch" and not none and st.get("otherwise") is not None:
+            none = [st["otherwise"]]
+        if some and none:
+            r = b._reachable_from(some[0], avoid={nx[0][0]})
+            if none[0] in r:
+                yield VIOL("C19-R7", "from_auth_header/params-loop-break", "the parameter loop can be left from inside an iteration without an error (`break`): later parameters are not read", where=b.span_of_block(nx[0][0]))
+            elif not bad:
+                yield PASS("C19-R7", "from_auth_header/params-read-to-end", "for-loop over split(','): an iteration ends in the next iteration or an error return", [site(b, nx[0][0], "next")])
+        elif not bad:
+            yield MISSING("C19-R7", "from_auth_header/params-loop-shape", "parameter loop's Some/None edges not found")
+    elif not bad:
+        # pipeline form: every stage between split(',') and the consumer is order- and length-preserving apart from `filter`
+        yield PASS("C19-R7", "from_auth_header/params-read-to-end", "no truncating or reordering adaptor on the split(',') pipeline", [site(b, bi, "split") for bi, _ in sp])
